@@ -731,8 +731,10 @@ theorem langViews_canonical (langs : List Nat) (pp : Nat → CostModel) (h : ∀
 
 @[simp] theorem addRef_inputs (st : St) (s : Script) (r : Option TxIn) : (addRef st s r).inputs = st.inputs := by
   cases r <;> rfl
-@[simp] theorem addRef_mintKeys (st : St) (s : Script) (r : Option TxIn) : (addRef st s r).mintKeys = st.mintKeys := by
+@[simp] theorem addRef_mint (st : St) (s : Script) (r : Option TxIn) : (addRef st s r).mint = st.mint := by
   cases r <;> rfl
+@[simp] theorem addRef_inRedeemers (st : St) (s : Script) (r : Option TxIn) :
+    (addRef st s r).inRedeemers = st.inRedeemers := by cases r <;> rfl
 @[simp] theorem addRef_wdrlKeys (st : St) (s : Script) (r : Option TxIn) : (addRef st s r).wdrlKeys = st.wdrlKeys := by
   cases r <;> rfl
 @[simp] theorem addRef_certificate (st : St) (s : Script) (r : Option TxIn) :
@@ -751,10 +753,6 @@ def opInputs : Op → List TxIn
 def opIsCert : Op → Bool
   | .cert => true
   | _ => false
-
-theorem apply_inputs (st st' : St) (o : Op) (h : apply st o = some st') : st'.inputs = st.inputs ++ opInputs o := by
-  cases o <;> simp only [apply] at h <;> (try split at h) <;> (try split at h) <;>
-    simp only [Option.some.injEq, reduceCtorEq] at h <;> (try subst h) <;> simp [opInputs]
 
 theorem apply_nCerts (st st' : St) (o : Op) (h : apply st o = some st') :
     st'.nCerts = st.nCerts + (if opIsCert o then 1 else 0) := by
@@ -814,20 +812,33 @@ theorem nodup_addIfAbsent {β : Type} [DecidableEq β] (l : List β) (x : β) (h
     simp only [List.mem_singleton] at hb
     rw [hb]; intro e; rw [e] at ha; exact hx ha
 
-def opMint : Op → List Bytes
-  | .mint p => [p]
-  | _ => []
+/-- the value a call assigns to `self.mint` -/
+def opMint : Op → Option MultiAsset
+  | .mintSet m => some m
+  | _ => none
+
+def isMintSet : Op → Bool
+  | .mintSet _ => true
+  | _ => false
+
+/-- `self.mint` after a sequence of calls: the last assignment wins -/
+def mintTrace (m : MultiAsset) (ops : List Op) : MultiAsset := ops.foldl (fun acc o => (opMint o).getD acc) m
 
 def opWdrl : Op → List Bytes
   | .withdraw a => [a]
   | _ => []
 
-theorem apply_mintKeys (st st' : St) (o : Op) (h : apply st o = some st') :
-    (st.mintKeys.Nodup → st'.mintKeys.Nodup) ∧ ∀ k, k ∈ st'.mintKeys ↔ k ∈ st.mintKeys ∨ k ∈ opMint o := by
+/-- repaired `add_input` / `add_script_input`: a call never repeats a UTxO in `self.inputs`, and adds exactly its own -/
+theorem apply_inputs (st st' : St) (o : Op) (h : apply st o = some st') :
+    (st.inputs.Nodup → st'.inputs.Nodup) ∧ ∀ u, u ∈ st'.inputs ↔ u ∈ st.inputs ∨ u ∈ opInputs o := by
   cases o <;> simp only [apply] at h <;> (try split at h) <;> (try split at h) <;>
     simp only [Option.some.injEq, reduceCtorEq] at h <;> (try subst h) <;>
-    simp [opMint, mem_addIfAbsent, nodup_addIfAbsent]
-  exact fun h => nodup_addIfAbsent _ _ h
+    simp [opInputs, mem_addIfAbsent, nodup_addIfAbsent]
+  all_goals exact fun h => nodup_addIfAbsent _ _ h
+
+theorem apply_mint (st st' : St) (o : Op) (h : apply st o = some st') : st'.mint = (opMint o).getD st.mint := by
+  cases o <;> simp only [apply] at h <;> (try split at h) <;> (try split at h) <;>
+    simp only [Option.some.injEq, reduceCtorEq] at h <;> (try subst h) <;> simp [opMint]
 
 theorem apply_wdrlKeys (st st' : St) (o : Op) (h : apply st o = some st') :
     (st.wdrlKeys.Nodup → st'.wdrlKeys.Nodup) ∧ ∀ k, k ∈ st'.wdrlKeys ↔ k ∈ st.wdrlKeys ∨ k ∈ opWdrl o := by
@@ -850,8 +861,10 @@ theorem run_append (st : St) (a b : List Op) :
     | none => rfl
     | some s => exact ih s
 
+/-- after any sequence of calls `self.inputs` holds every UTxO that was added, each once -/
 theorem run_inputs (st st' : St) (ops : List Op) (h : run st ops = some st') :
-    st'.inputs = st.inputs ++ ops.flatMap opInputs := by
+    (st.inputs.Nodup → st'.inputs.Nodup) ∧
+      ∀ u, u ∈ st'.inputs ↔ u ∈ st.inputs ∨ u ∈ ops.flatMap opInputs := by
   induction ops generalizing st with
   | nil => simp [run] at h; subst h; simp
   | cons o os ih =>
@@ -860,7 +873,10 @@ theorem run_inputs (st st' : St) (ops : List Op) (h : run st ops = some st') :
     | none => simp [ha] at h
     | some s =>
       simp only [ha] at h
-      rw [ih s h, apply_inputs st s o ha]; simp
+      obtain ⟨n1, m1⟩ := apply_inputs st s o ha
+      obtain ⟨n2, m2⟩ := ih s h
+      refine ⟨fun hn => n2 (n1 hn), fun k => ?_⟩
+      rw [m2 k, m1 k, List.flatMap_cons, List.mem_append, or_assoc]
 
 theorem run_nCerts (st st' : St) (ops : List Op) (h : run st ops = some st') :
     st'.nCerts = st.nCerts + ops.countP opIsCert := by
@@ -900,21 +916,78 @@ theorem run_datums (st st' : St) (ops : List Op) (h : run st ops = some st') (k 
       simp only [ha] at h
       exact ih s h (apply_datums st s o ha k hk)
 
-theorem run_mintKeys (st st' : St) (ops : List Op) (h : run st ops = some st') :
-    (st.mintKeys.Nodup → st'.mintKeys.Nodup) ∧
-      ∀ k, k ∈ st'.mintKeys ↔ k ∈ st.mintKeys ∨ k ∈ ops.flatMap opMint := by
+theorem run_mint (st st' : St) (ops : List Op) (h : run st ops = some st') : st'.mint = mintTrace st.mint ops := by
   induction ops generalizing st with
-  | nil => simp [run] at h; subst h; simp
+  | nil => simp [run] at h; subst h; rfl
   | cons o os ih =>
     simp only [run] at h
     cases ha : apply st o with
     | none => simp [ha] at h
     | some s =>
       simp only [ha] at h
-      obtain ⟨n1, m1⟩ := apply_mintKeys st s o ha
-      obtain ⟨n2, m2⟩ := ih s h
-      refine ⟨fun hn => n2 (n1 hn), fun k => ?_⟩
-      rw [m2 k, m1 k, List.flatMap_cons, List.mem_append, or_assoc]
+      rw [ih s h, apply_mint st s o ha]; rfl
+
+/-- `self.mint` depends on the assignments only, in their order -/
+theorem mintTrace_filter (m : MultiAsset) (ops : List Op) : mintTrace m (ops.filter isMintSet) = mintTrace m ops := by
+  induction ops generalizing m with
+  | nil => rfl
+  | cons o os ih =>
+    cases o <;> simp only [List.filter_cons, isMintSet, if_true, Bool.false_eq_true, if_false] <;>
+      simp only [mintTrace, List.foldl_cons, opMint, Option.getD_some, Option.getD_none] <;> exact ih _
+
+/-- the keys of `_inputs_to_redeemers` are inputs: `add_script_input` registers the UTxO it attaches a redeemer to -/
+theorem mem_aset {ν : Type} (m : List (TxIn × ν)) (k : TxIn) (v : ν) (p : TxIn × ν) (h : p ∈ aset m k v) :
+    p ∈ m ∨ p.1 = k := by
+  induction m with
+  | nil => simp [aset] at h; exact Or.inr (by rw [h])
+  | cons q r ih =>
+    obtain ⟨k', v'⟩ := q
+    simp only [aset] at h
+    split at h
+    · rename_i e
+      rcases List.mem_cons.1 h with e' | e'
+      · exact Or.inr (by rw [e']; exact e)
+      · exact Or.inl (List.mem_cons_of_mem _ e')
+    · rcases List.mem_cons.1 h with e' | e'
+      · exact Or.inl (by rw [e']; simp)
+      · rcases ih e' with h1 | h1
+        · exact Or.inl (List.mem_cons_of_mem _ h1)
+        · exact Or.inr h1
+
+theorem apply_inRedeemers (st st' : St) (o : Op) (h : apply st o = some st')
+    (hi : ∀ p ∈ st.inRedeemers, p.1 ∈ st.inputs) : ∀ p ∈ st'.inRedeemers, p.1 ∈ st'.inputs := by
+  have hin := (apply_inputs st st' o h).2
+  cases o with
+  | scriptInput u s src datum r =>
+    simp only [apply] at h
+    split at h
+    · simp at h
+    · rename_i e r' _
+      simp only [Option.some.injEq] at h; subst h
+      intro p hp
+      simp only at hp ⊢
+      cases r' with
+      | none => exact (mem_addIfAbsent _ _ _).2 (Or.inl (hi p (by simpa using hp)))
+      | some rd =>
+        rcases mem_aset _ _ _ _ hp with h1 | h1
+        · exact (mem_addIfAbsent _ _ _).2 (Or.inl (hi p h1))
+        · exact (mem_addIfAbsent _ _ _).2 (Or.inr h1)
+  | _ =>
+    simp only [apply] at h <;> (try split at h) <;> (try split at h) <;>
+      simp only [Option.some.injEq, reduceCtorEq] at h <;> (try subst h) <;>
+      (intro p hp; exact (hin p.1).2 (Or.inl (hi p (by simpa using hp))))
+
+theorem run_inRedeemers (st st' : St) (ops : List Op) (h : run st ops = some st')
+    (hi : ∀ p ∈ st.inRedeemers, p.1 ∈ st.inputs) : ∀ p ∈ st'.inRedeemers, p.1 ∈ st'.inputs := by
+  induction ops generalizing st with
+  | nil => simp [run] at h; subst h; exact hi
+  | cons o os ih =>
+    simp only [run] at h
+    cases ha : apply st o with
+    | none => simp [ha] at h
+    | some s =>
+      simp only [ha] at h
+      exact ih s h (apply_inRedeemers st s o ha hi)
 
 theorem run_wdrlKeys (st st' : St) (ops : List Op) (h : run st ops = some st') :
     (st.wdrlKeys.Nodup → st'.wdrlKeys.Nodup) ∧
@@ -1173,7 +1246,7 @@ def certTrace : Nat → List Op → List (Script × Option Rdm)
   | n, .scriptInput _ _ _ _ _ :: os => certTrace n os
   | n, .mintingScript _ _ _ :: os => certTrace n os
   | n, .withdrawalScript _ _ _ :: os => certTrace n os
-  | n, .mint _ :: os => certTrace n os
+  | n, .mintSet _ :: os => certTrace n os
   | n, .withdraw _ :: os => certTrace n os
   | n, .nativeScript _ :: os => certTrace n os
   | n, .outputDatum _ :: os => certTrace n os
@@ -1340,6 +1413,48 @@ theorem bodyInputs_of_nodup (l : List TxIn) (hn : l.Nodup) : bodyInputs l = l :=
     intro y hy
     simp only [bne_iff_ne, ne_eq]
     intro e; rw [e] at hy; exact hn.1 hy
+
+/-- the body's inputs and mint are those of the state `build` leaves behind -/
+theorem build_inputs (net : Nat) (st st' : St) (sel : List TxIn) (ev : Nat → Nat → Option (Int × Int))
+    (h : build net st sel ev = some st') : st'.inputs = sortInputs (st.inputs ++ sel) := by
+  obtain ⟨st1, h1, h2⟩ := build_steps net st st' sel ev h
+  rw [(updateExUnits_frame ev st1 st' h2).2.2.2.2.1, (setRedeemerIndex_frame net _ st1 h1).2.2.1]
+
+theorem setRedeemerIndex_mint (net : Nat) (st st' : St) (h : setRedeemerIndex net st = some st') : st'.mint = st.mint := by
+  unfold setRedeemerIndex at h
+  split at h
+  · simp only [Option.some.injEq] at h; subst h; rfl
+  · simp at h
+
+theorem updateExUnits_mint (ev : Nat → Nat → Option (Int × Int)) (st st' : St) (h : updateExUnits ev st = some st') :
+    st'.mint = st.mint := by
+  unfold updateExUnits at h
+  split at h
+  · simp only at h
+    split at h
+    · simp only [Option.some.injEq] at h; subst h; rfl
+    · simp at h
+  · simp only [Option.some.injEq] at h; subst h; rfl
+
+theorem build_mint (net : Nat) (st st' : St) (sel : List TxIn) (ev : Nat → Nat → Option (Int × Int))
+    (h : build net st sel ev = some st') : st'.mint = st.mint := by
+  obtain ⟨st1, h1, h2⟩ := build_steps net st st' sel ev h
+  rw [updateExUnits_mint ev st1 st' h2, setRedeemerIndex_mint net _ st1 h1]
+
+/-- normalising drops entries, it never adds or repeats a policy -/
+theorem bodyPolicies_sublist (m : MultiAsset) : (bodyPolicies m).Sublist (Dict.keys m) := by
+  unfold bodyPolicies Dict.keys MultiAsset.normalize
+  have h : (m.map fun p => (p.1, Asset.normalize p.2)).map (·.1) = m.map (·.1) := by
+    rw [List.map_map]; rfl
+  rw [← h]
+  exact List.filter_sublist.map _
+
+theorem bodyPolicies_nodup (m : MultiAsset) (h : Dict.WF m) : (bodyPolicies m).Nodup :=
+  List.Nodup.sublist (bodyPolicies_sublist m) h
+
+theorem bodyPolicies_perm (m₁ m₂ : MultiAsset) (h : m₁.Perm m₂) : (bodyPolicies m₁).Perm (bodyPolicies m₂) := by
+  unfold bodyPolicies Dict.keys MultiAsset.normalize
+  exact ((h.map _).filter _).map _
 
 theorem multiAsset_normalize_of_normal (m : MultiAsset) (h : MultiAsset.Normal m) : MultiAsset.normalize m = m := by
   unfold MultiAsset.normalize
